@@ -132,6 +132,8 @@ def _impl_index(inp):
 
 
 def _holds_index(ctx, inp, out):
+    if not is_err(out) and out["val"] < 0:
+        return "lookup returned a negative index"
     o = out if not (is_err(out) and out["raise"].startswith("crash")) else {"raise": "index"}
     ok = ctx.model("holds_index", {"coords": inp["coords"], "v": inp["v"], "raise": inp["raise"], "out": o})
     return None if ok else "lookup statement of C16 fails on the real output"
@@ -355,19 +357,31 @@ def _value(rng, kind, free):
     return {"shape": vs, "data": rats(range(100, 100 + n))}
 
 
-def run(ctx):
-    ctx.run_corpus(OPS)
+def _stage_ranges(ctx):
     ctx.run_cases(OPS["range_dim"], _range_grid_cases())
     ctx.exhaustive["range_dim grid"] = "4 starts x 5 dyadic steps x stop = start + m*step/4, m = 0..24 (every quotient fraction)"
     ctx.run_cases(OPS["range_dim"], _range_random_cases(ctx.rng, ctx.budget(1500, 20000)))
-    ctx.run_cases(OPS["range_free"], _range_free_cases(ctx))
+
+
+def _stage_index(ctx):
     ctx.run_cases(OPS["coord_index"], _index_cases(ctx))
     ctx.exhaustive["coord_index"] = ("axes of 1-6 points (decimal, thirds, integers, huge, tiny, random, adjacent floats, "
                                      "repeated coordinate): every coordinate, both float neighbours, every midpoint, beyond both "
                                      "ends, raise and clamp")
+
+
+def _stage_set(ctx):
     ctx.run_cases(OPS["set_value"], _set_cases(ctx))
     ctx.exhaustive["set_value"] = ("all shapes with 1-3 axes of 1-3 points, every subset of queried axes, every addressed "
                                    "index; scalar / exact / broadcast / unbroadcastable values")
+
+
+def run(ctx):
+    ctx.stage("corpus", ctx.run_corpus, OPS)
+    ctx.stage("range-exact", _stage_ranges, ctx)
+    ctx.stage("range-free-monitor", lambda: ctx.run_cases(OPS["range_free"], _range_free_cases(ctx)))
+    ctx.stage("coord-index", _stage_index, ctx)
+    ctx.stage("set-value", _stage_set, ctx)
 
 
 def search(ctx, failures):
